@@ -213,6 +213,11 @@ impl<'a> Locals<'a> {
         }
     }
 
+    /// Forget all reservations, e.g. if the allocator is (re)initialized.
+    pub fn clear(&self) {
+        self.drain(|_, _, _| {});
+    }
+
     pub fn set_start(&self, class: Class, index: usize, row: RowId) {
         let Some(locals) = &self.locals(class) else {
             return;
